@@ -7,7 +7,11 @@
 (*            fault, if any)                                                *)
 (*  process   ProcessProposal of a described proposal on some replica       *)
 (*  finalize  FinalizeBlock of a described proposal (engine answers at the  *)
-(*            end of the block, engine calls observed, result)              *)
+(*            end of the block, engine calls observed, result); byz # ""    *)
+(*            marks a mutated proposal that others decided: it is executed  *)
+(*            on a replica which then crashes before Commit (its engine log *)
+(*            may contain a late request of the refused ProcessProposal and *)
+(*            is not compared)                                              *)
 (*  commit    Commit, with the committed state read back                    *)
 (*  abandon   a round that was prepared / processed but not decided         *)
 (*  crash     the process dies before Commit; restart re-opens the database *)
@@ -84,7 +88,7 @@ TraceFinalize ==
      /\ Chk((B("finalize") /\ ~Ev.err) => (Ev.msgOk => checks), "BLOCKMSG-ACCEPTED-BAD-PROPOSAL", p)
      /\ Chk((B("finalize") /\ ~Ev.err) => ((checks /\ Ev.modulesOk) => Ev.msgOk), "BLOCKMSG-FAILED", << DueList(C), p >>)
      /\ Chk(B("faults") => (Ev.err = ~engOk), "FINALIZE-ERROR", << Ev.endNp, Ev.endFcu >>)
-     /\ Chk((B("faults") /\ ~Ev.err) => EngineLogOk(Ev, after.head), "ENGINE-LOG", after.head)
+     /\ Chk((B("faults") /\ ~Ev.err /\ Ev.byz = "") => EngineLogOk(Ev, after.head), "ENGINE-LOG", after.head)
      /\ pending' = IF Ev.err THEN None ELSE [none |-> FALSE, c |-> after, delivered |-> IF Ev.msgOk THEN DueOf(C.q) ELSE [k \in Kinds |-> << >>]]
   /\ UNCHANGED << C, handed, seen >>
 
